@@ -547,6 +547,14 @@ pub struct Outcome {
 /// Emits the case with the real writer, sends the body through its bincode encoding, reads it back with
 /// the real reader and compares with the model.  Err(kind, detail) describes the first disagreement.
 pub fn run_case(items: &[Item]) -> Result<Outcome, (String, String)> {
+    run_case_impl(items, false).map(|(o, _)| o)
+}
+
+pub fn run_case_body(items: &[Item]) -> Result<BytecodeBody, (String, String)> {
+    run_case_impl(items, true).map(|(_, b)| b.expect("body"))
+}
+
+fn run_case_impl(items: &[Item], body_only: bool) -> Result<(Outcome, Option<BytecodeBody>), (String, String)> {
     let bad = |k: &str, d: String| Err((k.to_string(), d));
     // ---- pass 1: model offsets and pool positions
     let n = items.len();
@@ -798,6 +806,9 @@ pub fn run_case(items: &[Item]) -> Result<Outcome, (String, String)> {
         }
     }
     let body = w.generate();
+    if body_only {
+        return Ok((Outcome { instructions: 0, code_len: total_len, wide }, Some(body)));
+    }
 
     // ---- bincode round trip of the function body
     let cfg = bincode::config::standard();
@@ -937,7 +948,7 @@ pub fn run_case(items: &[Item]) -> Result<Outcome, (String, String)> {
         }
     }
     let _ = BytecodeOffset(0);
-    Ok(Outcome { instructions: got.len() as u64, code_len: total_len, wide })
+    Ok((Outcome { instructions: got.len() as u64, code_len: total_len, wide }, None))
 }
 
 fn pool_eq(a: &ConstPoolEntry, b: &ConstPoolEntry) -> bool {
@@ -1376,4 +1387,135 @@ fn evaluate(items: &[Item], rep: &mut Report) {
 fn clip(t: &str) -> String {
     // replay files keep the whole case unless it is absurdly long
     if t.len() > 200_000 { t.chars().take(200_000).collect() } else { t.to_string() }
+}
+
+// ------------------------------------------------------------------------------------------------
+// twin: the same bytes for the reader written in Dora (pkgs/boots/bytecode/reader.dora)
+
+pub const TWIN_H0: i64 = 1469598103934665603;
+
+pub fn twin_mix(h: i64, v: i64) -> i64 {
+    (h ^ v).wrapping_mul(1099511628211)
+}
+
+/// Checksum over what a reader reports for one function: per instruction start, opcode byte, size and
+/// the operands in byte order (32-bit values taken as unsigned).
+pub fn twin_checksum(code: &[u8]) -> (u64, i64) {
+    let mut all: Vec<(usize, u8, Vec<u64>)> = Vec::new();
+    for (off, opc, inst) in BytecodeReader::new(code) {
+        let (_, v) = normalize(inst);
+        all.push((off, opc.into(), v));
+    }
+    let mut h = TWIN_H0;
+    for k in 0..all.len() {
+        let end = if k + 1 < all.len() { all[k + 1].0 } else { code.len() };
+        h = twin_mix(h, all[k].0 as i64);
+        h = twin_mix(h, all[k].1 as i64);
+        h = twin_mix(h, (end - all[k].0) as i64);
+        for v in &all[k].2 {
+            h = twin_mix(h, (*v & 0xffff_ffff) as i64);
+        }
+    }
+    (all.len() as u64, h)
+}
+
+/// Writes `cases.bin` (u32 length + code bytes per case), `expected.txt` (index, instruction count, checksum)
+/// and `cases.txt` (index, case text) for the declared subset of the codec space.
+pub fn run_twin_gen(args: &Args) -> Report {
+    use std::io::Write;
+    let full = args.get("tier", "quick") == "thorough";
+    let max_len = args.num("max-len", 20000) as usize;
+    let single_stride = args.num("single-stride", if full { 1 } else { 23 });
+    let cats = categories(full);
+    let mut bin = std::io::BufWriter::new(std::fs::File::create(args.get("out-bin", "cases.bin")).expect("out-bin"));
+    let mut exp = std::io::BufWriter::new(std::fs::File::create(args.get("out-exp", "expected.txt")).expect("out-exp"));
+    let mut txt = std::io::BufWriter::new(std::fs::File::create(args.get("out-cases", "cases.txt")).expect("out-cases"));
+    let mut rep = Report::default();
+    let one = args.get("case", "");
+    if !one.is_empty() {
+        // replay: exactly this case
+        let items = parse_case(&one).expect("case text");
+        let code = emit_code_only(&items).expect("case cannot be emitted");
+        let (n, h) = twin_checksum(&code);
+        bin.write_all(&(code.len() as u32).to_le_bytes()).unwrap();
+        bin.write_all(&code).unwrap();
+        writeln!(exp, "0 {} {}", n, h).unwrap();
+        writeln!(txt, "0\t{}", one).unwrap();
+        rep.evaluations = 1;
+        return rep;
+    }
+    // the selected (category, index) list, evaluated in parallel, written in order
+    let mut sel: Vec<(usize, u64)> = Vec::new();
+    for (k, c) in cats.iter().enumerate() {
+        if c.name == "pool" {
+            continue; // constant pools do not reach the instruction reader
+        }
+        for j in 0..c.count {
+            if c.name == "single" && j % single_stride != 0 {
+                continue;
+            }
+            sel.push((k, j));
+        }
+    }
+    let nthreads = crate::threads(args).max(1);
+    let chunk = (sel.len() + nthreads - 1) / nthreads.max(1);
+    let mut parts: Vec<Vec<(usize, Vec<u8>, String)>> = Vec::new();
+    std::thread::scope(|sc| {
+        let mut hs = Vec::new();
+        for piece in sel.chunks(chunk.max(1)) {
+            let cats = &cats;
+            hs.push(sc.spawn(move || {
+                let mut out = Vec::new();
+                for (k, j) in piece {
+                    let items = (cats[*k].make)(*j);
+                    let approx: usize = items
+                        .iter()
+                        .map(|it| match it {
+                            Item::Pad(n) => *n,
+                            Item::Invoke { nargs, .. } => *nargs as usize * 2,
+                            _ => 4,
+                        })
+                        .sum();
+                    if approx > max_len || items.iter().any(|it| matches!(it, Item::Fill(n) if *n > 300)) {
+                        continue;
+                    }
+                    let code = match guarded(|| emit_code_only(&items)) {
+                        Ok(Some(code)) => code,
+                        _ => continue,
+                    };
+                    if code.is_empty() || code.len() > max_len {
+                        continue;
+                    }
+                    out.push((*k, code, case_text(&items).chars().take(2000).collect::<String>()));
+                }
+                out
+            }));
+        }
+        for h in hs {
+            parts.push(h.join().expect("twin worker"));
+        }
+    });
+    let mut idx = 0u64;
+    for part in parts {
+        for (k, code, text) in part {
+            let (n, h) = twin_checksum(&code);
+            bin.write_all(&(code.len() as u32).to_le_bytes()).unwrap();
+            bin.write_all(&code).unwrap();
+            writeln!(exp, "{} {} {}", idx, n, h).unwrap();
+            writeln!(txt, "{}\t{}", idx, text).unwrap();
+            rep.bump("twin_instructions", n);
+            rep.bump(&format!("twin_cases_{}", cats[k].name), 1);
+            idx += 1;
+        }
+    }
+    rep.evaluations = idx;
+    rep
+}
+
+/// The code bytes the real writer produces for a case (no checks: the codec part does those).
+fn emit_code_only(items: &[Item]) -> Option<Vec<u8>> {
+    match run_case_body(items) {
+        Ok(body) => Some(body.code().to_vec()),
+        Err(_) => None,
+    }
 }
